@@ -123,13 +123,15 @@ Definition add_workload (s : kspace) (w : wl) : kspace * bool :=
   end.
 
 Definition list_workloads (b : backend) (s : kspace) (app entry node : bytes) : list bytes :=
-  map (fun kw => w_id (snd kw)) (filter (fun kw => under b (list_key app entry node) (fst kw)) s).
+  let lk := list_key app entry node in     (* computed once *)
+  map (fun kw => w_id (snd kw)) (filter (fun kw => under b lk (fst kw)) s).
 
 (* doGetDeployStatus: parts := Split(key, "/"); nodename := parts[len(parts)-2] *)
 Definition key_node (k : bytes) : bytes :=
   let parts := split_on slash k in nth (List.length parts - 2) parts [].
 Definition status_nodes (b : backend) (s : kspace) (app entry : bytes) : list bytes :=
-  map (fun kw => key_node (fst kw)) (filter (fun kw => under b (status_key app entry) (fst kw)) s).
+  let sk := status_key app entry in
+  map (fun kw => key_node (fst kw)) (filter (fun kw => under b sk (fst kw)) s).
 
 (* ================= correspondence cases: the stores ================= *)
 Record addc := mkAdd { a_app : string; a_entry : string; a_ident : string; a_node : string; a_id : string;
